@@ -440,3 +440,161 @@ theorem run_ownOnly (Vf : Nat → List Int) (sched : List Nat) : ∀ (cfg : Cfg)
       exact stepT_ownOnly _ _ _ (h k tk h1)
 
 end Typedpy.Sched
+
+namespace Typedpy.Sched
+
+/-! ### a call only touches the cells of its own declaration -/
+
+theorem homogFrom_cells (cell : Nat) (name : String) : ∀ (es : List (Int × Bool)) (i : Nat),
+    (∀ c ∈ writeCells (progHomogFrom cell name i es), c = cell) ∧
+    (∀ c ∈ readCells (progHomogFrom cell name i es), c = cell) := by
+  intro es
+  induction es with
+  | nil => intro i; simp [progHomogFrom, writeCells, readCells]
+  | cons e rest ih =>
+    intro i
+    obtain ⟨v, ok⟩ := e
+    have := ih (i + 1)
+    simp only [writeCells, readCells] at this ⊢
+    simp only [progHomogFrom, List.flatMap_cons, Step.writeCells, Step.readCells, List.mem_append, List.mem_singleton,
+      List.nil_append]
+    constructor
+    · intro c hc
+      rcases hc with hc | hc
+      · exact hc
+      · exact this.1 c hc
+    · intro c hc
+      rcases hc with hc | hc | hc
+      · exact hc
+      · exact hc
+      · exact this.2 c hc
+
+theorem setFrom_cells (cell : Nat) : ∀ (es : List (Int × Bool)),
+    (∀ c ∈ writeCells (progSetFrom cell es), c = cell) ∧ (∀ c ∈ readCells (progSetFrom cell es), c = cell) := by
+  intro es
+  induction es with
+  | nil => simp [progSetFrom, writeCells, readCells]
+  | cons e rest ih =>
+    obtain ⟨v, ok⟩ := e
+    simp only [writeCells, readCells] at ih ⊢
+    simp only [progSetFrom, List.flatMap_cons, Step.writeCells, Step.readCells, List.mem_append, List.mem_singleton,
+      List.nil_append]
+    constructor
+    · intro c hc
+      exact ih.1 c hc
+    · intro c hc
+      rcases hc with hc | hc | hc
+      · exact hc
+      · exact hc
+      · exact ih.2 c hc
+
+theorem mapFrom_cells (kc vc : Nat) : ∀ (es : List ((Int × Bool) × (Int × Bool))),
+    (∀ c ∈ writeCells (progMapFrom kc vc es), c = kc ∨ c = vc) ∧
+    (∀ c ∈ readCells (progMapFrom kc vc es), c = kc ∨ c = vc) := by
+  intro es
+  induction es with
+  | nil => simp [progMapFrom, writeCells, readCells]
+  | cons e rest ih =>
+    obtain ⟨⟨k, kok⟩, ⟨v, vok⟩⟩ := e
+    simp only [writeCells, readCells] at ih ⊢
+    simp only [progMapFrom, List.flatMap_cons, Step.writeCells, Step.readCells, List.mem_append, List.mem_singleton,
+      List.nil_append]
+    constructor
+    · intro c hc
+      exact ih.1 c hc
+    · intro c hc
+      rcases hc with hc | hc | hc | hc | hc
+      · exact Or.inl hc
+      · exact Or.inr hc
+      · exact Or.inr hc
+      · exact Or.inl hc
+      · exact ih.2 c hc
+
+theorem posFrom_cells (base : Nat) (name : String) (n : Nat) : ∀ (es : List (Int × Bool)) (i : Nat),
+    (∀ c ∈ writeCells (progPosFrom base name n i es), base ≤ c ∧ c < base + n) ∧
+    (∀ c ∈ readCells (progPosFrom base name n i es), base ≤ c ∧ c < base + n) := by
+  intro es
+  induction es with
+  | nil => intro i; simp [progPosFrom, writeCells, readCells]
+  | cons e rest ih =>
+    intro i
+    obtain ⟨v, ok⟩ := e
+    have := ih (i + 1)
+    simp only [writeCells, readCells] at this ⊢
+    simp only [progPosFrom]
+    split
+    · next hlt =>
+      simp only [List.flatMap_cons, Step.writeCells, Step.readCells, List.mem_append, List.mem_singleton,
+        List.nil_append]
+      constructor
+      · intro c hc
+        rcases hc with hc | hc
+        · subst hc; omega
+        · exact this.1 c hc
+      · intro c hc
+        rcases hc with hc | hc | hc
+        · subst hc; omega
+        · subst hc; omega
+        · exact this.2 c hc
+    · simp only [List.flatMap_cons, Step.writeCells, Step.readCells, List.nil_append]
+      exact this
+
+set_option linter.unusedSimpArgs false in
+/-- a call only writes and reads the cells of its own declaration -/
+theorem Call.prog_cells (call : Call) :
+    (∀ c ∈ writeCells call.prog, call.usesCell c = true) ∧ (∀ c ∈ readCells call.prog, call.usesCell c = true) := by
+  cases call with
+  | homog cell name w es =>
+    have := homogFrom_cells cell name es 0
+    simp only [writeCells, readCells] at this
+    simp only [Call.prog, progHomog, Call.usesCell, writeCells, readCells, beq_iff_eq]
+    constructor
+    · intro c hc
+      cases w <;>
+        simp only [List.flatMap_append, List.flatMap_cons, List.flatMap_nil, Step.writeCells, List.mem_append,
+          List.mem_singleton, List.nil_append, List.append_nil, List.not_mem_nil, false_or, ite_true,
+          Bool.false_eq_true, ite_false, if_true, if_false] at hc
+      · exact this.1 c hc
+      · rcases hc with hc | hc
+        · exact hc
+        · exact this.1 c hc
+    · intro c hc
+      cases w <;>
+        simp only [List.flatMap_append, List.flatMap_cons, List.flatMap_nil, Step.readCells, List.mem_append,
+          List.mem_singleton, List.nil_append, List.append_nil, List.not_mem_nil, false_or, ite_true,
+          Bool.false_eq_true, ite_false, if_true, if_false] at hc
+      · exact this.2 c hc
+      · exact this.2 c hc
+  | set cell name es =>
+    have := setFrom_cells cell es
+    simp only [writeCells, readCells] at this
+    simp only [Call.prog, progSet, Call.usesCell, writeCells, readCells, beq_iff_eq, List.flatMap_cons,
+      Step.writeCells, Step.readCells, List.mem_append, List.mem_singleton, List.nil_append]
+    constructor
+    · intro c hc
+      rcases hc with hc | hc
+      · exact hc
+      · exact this.1 c hc
+    · intro c hc
+      exact this.2 c hc
+  | map kc vc name es =>
+    have := mapFrom_cells kc vc es
+    simp only [writeCells, readCells] at this
+    simp only [Call.prog, progMap, Call.usesCell, writeCells, readCells, Bool.or_eq_true, beq_iff_eq, List.flatMap_cons,
+      Step.writeCells, Step.readCells, List.mem_append, List.mem_singleton, List.nil_append]
+    constructor
+    · intro c hc
+      rcases hc with hc | hc | hc
+      · exact Or.inl hc
+      · exact Or.inr hc
+      · exact this.1 c hc
+    · intro c hc
+      exact this.2 c hc
+  | pos base name n es =>
+    have := posFrom_cells base name n es 0
+    simp only [writeCells, readCells] at this
+    simp only [Call.prog, progPos, Call.usesCell, writeCells, readCells, Bool.and_eq_true, decide_eq_true_eq,
+      List.flatMap_cons, Step.writeCells, Step.readCells, List.nil_append]
+    exact this
+
+end Typedpy.Sched
